@@ -472,6 +472,43 @@ class Real:
         s = self.env.server_context(self.schema)
         return dataclasses.replace(s, **kw) if kw else s
 
+    def context_flags(self):
+        """every boolean field of the real `CompileContext` dataclass with its default (enumerated from
+        the source, so a new flag is picked up), and which of them the server compiler reads"""
+        import ast as pyast
+        import os
+        CC = self.c.CompileContext
+        flags = {f.name: f.default for f in dataclasses.fields(CC) if f.type in ('bool', bool)}
+        read = set()
+        d = os.path.join(core.REPO, 'edb', 'server', 'compiler')
+        for fn in ('compiler.py', 'ddl.py'):
+            for n in pyast.walk(pyast.parse(open(os.path.join(d, fn)).read())):
+                if (isinstance(n, pyast.Attribute) and isinstance(n.value, pyast.Name)
+                        and n.value.id.endswith('ctx') and n.attr in flags):
+                    read.add(n.attr)
+        return flags, read
+
+    def compile_notebook(self, queries):
+        """the real `Compiler.compile_notebook` entry (the only producer of notebook contexts)
+        -> list of ('ok', caps) | ('rej', class, message), one per query until the first error"""
+        import immutables
+        from edb.schema import schema as s_schema
+        from edb.server import defines
+        comp = self.env.new_compiler()
+        E0 = immutables.Map()
+        try:
+            res = comp.compile_notebook(self.schema, s_schema.EMPTY_SCHEMA, E0, E0, E0, list(queries),
+                                        defines.CURRENT_PROTOCOL)
+        except Exception as e:
+            return [('rej', 'internal', f'{type(e).__name__}: {e}'[:200])]
+        out = []
+        for is_err, r in res:
+            if is_err:
+                out.append(('rej', 'other', f'{r[0]}: {r[1]}'[:200]))
+            else:
+                out.append(('ok', int(r.capabilities)))
+        return out
+
     def classify(self, e):
         m = str(e)
         if 'cannot be used in a FILTER clause' in m or 'cannot be used in an ORDER BY clause' in m:
@@ -774,7 +811,7 @@ def run(ctx: core.Ctx):
         after.append(cb)
 
     stats = {'l1_group': 0, 'l1_mkerr': 0, 'terms': 0, 'extra': 0, 'kinds': 0, 'scripts': 0,
-             'fn_created': 0, 'fn_callers': 0}
+             'fn_created': 0, 'fn_callers': 0, 'kinds_flagged': 0}
     outcome_hist: dict[str, int] = {}
     ctx_hist: dict[str, int] = {}
     leaf_hist: dict[str, int] = {}
@@ -951,24 +988,57 @@ def run(ctx: core.Ctx):
     # ============================================================ level 2 (c)
     kinds_seen: dict[str, dict] = {}
 
-    def check_kind(key, pre, kw, stmt):
-        sctx = R.fresh(**kw)
-        for p in pre:
-            r = R.compile(p, sctx)
-            if r[0] != 'ok':
-                ctx.log(f'kind scenario prefix failed: {p!r}: {r}')
-                return None
-        real = R.compile(stmt, sctx)
-        stats['kinds'] += 1
+    flag_hist: dict[str, dict] = {}
+
+    def effective_key(key, kw, in_tx=False):
+        """row of the table the statement takes in a context with flags `kw`: only the GLOBAL-scope
+        ConfigOp rows look at a context flag (`ctx.notebook`); inside an explicit transaction (the
+        notebook entry point opens one) migration commands do not open/close the transaction"""
+        if key[0] == 'ConfigOp' and 'scope=GLOBAL' in key[1]:
+            return ('ConfigOp', ('scope=GLOBAL', f'notebook={1 if kw.get("notebook") else 0}'))
+        if in_tx and key == ('MigrationCommand', ('result=MigrationControlQuery', 'txAction=1')):
+            return ('MigrationCommand', ('result=MigrationControlQuery', 'txAction=0'))
+        return key
+
+    def check_kind(key, pre, kw, stmt, stream='default'):
+        """stream: 'default' | 'flag:<name>' (dataclasses.replace(ctx, flag=…)) | 'notebook-api'
+        (the real Compiler.compile_notebook).  The expectation is the property's: the capability of
+        the statement's kind, whatever the context flags (SET GLOBAL under notebook = the documented
+        exception, follows the row)."""
+        key = effective_key(key, kw, in_tx=(stream == 'notebook-api'))
+        if stream == 'notebook-api':
+            res = R.compile_notebook(pre + [stmt])
+            if len(res) != len(pre) + 1:
+                real = ('rej', 'other', 'prefix rejected: ' + str(res[-1][2:]))
+                if res and res[-1][1] == 'internal':
+                    real = res[-1]
+            else:
+                real = res[-1] if res[-1][0] == 'rej' else ('ok', res[-1][1], [res[-1][1]])
+        else:
+            sctx = R.fresh(**kw)
+            for p in pre:
+                r = R.compile(p, sctx)
+                if r[0] != 'ok':
+                    if stream == 'default':
+                        ctx.log(f'kind scenario prefix failed: {p!r}: {r}')
+                    return None
+            real = R.compile(stmt, sctx)
+        stats['kinds' if stream == 'default' else 'kinds_flagged'] += 1
         k = row_line('', key).strip()
-        d = kinds_seen.setdefault(k, {'ok': 0, 'rejected': [], 'caps': set()})
+        if stream == 'default':
+            d = kinds_seen.setdefault(k, {'ok': 0, 'rejected': [], 'caps': set()})
+        else:
+            fh = flag_hist.setdefault(stream, {'accepted': 0, 'rejected': 0, 'internal': 0})
+            fh['accepted' if real[0] == 'ok' else ('internal' if real[1] == 'internal' else 'rejected')] += 1
+            d = {'ok': 0, 'rejected': [], 'caps': set()}
         if real[0] != 'ok':
             d['rejected'].append(f'{stmt}: {real[2][:100]}')
             return real
         d['ok'] += 1
         d['caps'].add(real[1])
-        fkey = f'kind:{k}:{"; ".join(pre + [stmt])}'
-        detail = {'kind_row': k, 'prefix': pre, 'ctx': kw, 'stmt': stmt, 'real': real[1]}
+        tag = '' if stream == 'default' else f'[{stream} {json.dumps(kw, sort_keys=True)}]'
+        fkey = f'kind{tag}:{k}:{"; ".join(pre + [stmt])}'
+        detail = {'kind_row': k, 'prefix': pre, 'ctx': kw, 'stmt': stmt, 'real': real[1], 'stream': stream}
 
         def cb_row(m):
             if m != str(real[1]):
@@ -984,11 +1054,45 @@ def run(ctx: core.Ctx):
                 return
             exp = int(p[1])
             if exp & ~real[1]:
-                ctx.fail('oracle:' + fkey, 'statement lacks the capability its kind must carry',
+                ctx.fail('oracle:' + fkey, 'statement lacks the capability its kind must carry'
+                         + ('' if stream == 'default' else f' when compiled on a context with {kw} ({stream})'),
                          detail | {'expected': exp})
         ask(row_line('row', key), cb_row)
         ask(row_line('kind', key), cb_kind)
         return real
+
+    def kinds_under_flags():
+        """the kind table again on contexts with each boolean CompileContext flag flipped
+        (flags enumerated from the source) and through the real compile_notebook entry"""
+        flags, read = R.context_flags()
+        ctx.cov['context_flags'] = {'all': {k: bool(v) for k, v in flags.items()}, 'read_by_server_compiler': sorted(read)}
+        MS_CLASSES = {'Transaction', 'SessionCommand_tuple', 'ConfigOp', 'AdministerStmt'}
+        others = sorted(f for f in flags if f != 'notebook')
+        rot = others[ctx.seed % len(others)] if others else None     # quick: one flag (rotating with the seed) also gets the query / migration kinds
+        for key, scen in KIND_SCENARIOS:
+            for x in scen:
+                slow = len(x) > 3
+                if slow and ctx.quick():
+                    continue
+                pre, kw, stmt = list(x[0]), dict(x[1]), x[2]
+                ddl = key[0] == 'DDLCommand'
+                # the real notebook entry point
+                if not kw and not (ctx.quick() and (ddl or stmt.startswith(('analyze', 'describe')) or 'cfg::Auth' in stmt)):
+                    check_kind(key, pre, {'notebook': True}, stmt, 'notebook-api')
+                for fl, default in sorted(flags.items()):
+                    if fl in kw:
+                        continue
+                    if ctx.quick():
+                        if ddl or stmt.startswith(('analyze', 'describe')) or 'cfg::Auth' in stmt:
+                            continue
+                        if fl != 'notebook' and not (
+                                key[0] in ('ConfigOp', 'SessionCommand_tuple')
+                                or (key[0] in MS_CLASSES and x is scen[0])
+                                or (fl == rot and not pre)):
+                            continue
+                    elif fl != 'notebook' and ddl and slow:
+                        continue
+                    check_kind(key, pre, kw | {fl: not default}, stmt, f'flag:{fl}')
 
     # ============================================================ level 2 (d)
     def check_script(parts):
@@ -1136,7 +1240,7 @@ def run(ctx: core.Ctx):
                 check_term(e, d['mode'], d.get('meta'))
             elif 'kind_row' in d:
                 k = d['kind_row'].split(' ')
-                check_kind((k[0], tuple(k[1:])), d['prefix'], d['ctx'], d['stmt'])
+                check_kind((k[0], tuple(k[1:])), d['prefix'], d['ctx'], d['stmt'], d.get('stream', 'default'))
             elif 'parts' in d:
                 texts = d['script'].split('; ')
                 check_script(list(zip(texts, [tuple(p) for p in d['parts']])))
@@ -1223,6 +1327,10 @@ def run(ctx: core.Ctx):
             for x in sc:
                 check_kind(key, list(x[0]), dict(x[1]), x[2])
         ctx.log(f'statement kinds done: {stats["kinds"]} statements in {time.time() - t0:.1f}s')
+        t0 = time.time()
+        kinds_under_flags()
+        ctx.log(f'statement kinds under context flags done: {stats["kinds_flagged"]} statements in '
+                f'{time.time() - t0:.1f}s: {flag_hist}')
 
         # ---- level 2 (d): scripts
         cmd_pool = [
@@ -1302,6 +1410,7 @@ def run(ctx: core.Ctx):
         'internal_errors': len(internal),
         'precision_record': precision,
         'generated_functions': fn_hist,
+        'statement_kinds_under_context_flags': flag_hist,
         'generated_functions_by_annotation': fn_annot_hist,
         'statement_kinds': kinds_cov,
         'statement_kinds_rejected_examples': rej_kinds,
